@@ -4798,6 +4798,10 @@ class Symbol:
         for node in self.nodes:
             dependency = self.kconfig._make_and(dependency, node.dep)
         self.defaults = [(sym_for_val, dependency)]
+        # imply and 'set default' act on the same level as defaults (they apply only without a user value) and
+        # would otherwise override the value kept from sdkconfig.
+        self.weak_rev_dep = self.kconfig.n
+        self.weak_rev_values = []
 
         # Invalidate recursively to propagate the change to dependent symbols
         self._rec_invalidate()
